@@ -98,3 +98,10 @@ VARIANTS += [
          old="        except (Exception, KeyboardInterrupt):\n            # The trial already exists in the storage",
          new="        except ValueError:\n            # The trial already exists in the storage"),
 ]
+
+VARIANTS += [
+    dict(id="c02-callbacks-not-materialised", prop="C02", file="optuna/study/_optimize.py", expect="R02.5",
+         old="        callbacks = list(callbacks)\n", new="        callbacks = iter(callbacks)\n"),
+    dict(id="c02-neutral-callbacks-tuple", prop="C02", file="optuna/study/_optimize.py", expect=None,
+         old="        callbacks = list(callbacks)\n", new="        callbacks = tuple(callbacks)\n"),
+]
